@@ -26,6 +26,8 @@ W['C12/neg_size'] = one(module(defs=[T('T', [], [vftable([a_int('size', -1)], [v
 W['C12/overflow'] = one(module(defs=[T('Big', [], [F('a', ty_arr(u64, 4611686018427387904))])]), 'mul-overflow')
 W['C12/overflow_add'] = one(module(defs=[T('Big', [], [F('a', ty_arr(u8, 9223372036854775807)), F('b', ty_arr(u8, 9223372036854775807)), F('c', u64)])]), 'add-overflow', ps=8)
 W['C12/align0'] = one(module(xtypes=[xtype('X', [a_int('size', 4), a_int('align', 0)])], defs=[T('T', [], [F('x', ty_id('X'))])]), 'extern-align-0')
+W['C12/huge_align_backend'] = one(module(defs=[T('T', [a_int('align', 4611686018427387904)], [])]), 'huge-align-backend')
+W['C12/huge_align_backend8'] = one(module(defs=[T('T', [a_int('align', 8589934592), a_int('size', 8589934592)], [F('a', u64)])]), 'huge-align-backend8', ps=8)
 W['C12/enum_max'] = one(module(defs=[enum_def(True, 'E', ty_id('i64'), [], [enum_stmt('A', e_int(9223372036854775807))])]), 'enum-isize-max', ps=8)
 W['C12/enum_max_next'] = one(module(defs=[enum_def(True, 'E', ty_id('i64'), [], [enum_stmt('A', e_int(9223372036854775807)), enum_stmt('B')])]), 'enum-isize-max-next', ps=8)
 af = lambda name, addr, args=(MUTSELF,), ret=None, at=(): fn(True, name, [a_int('address', addr)] + list(at), list(args), ret)
